@@ -33,12 +33,19 @@ CallSig(p)                      == [k |-> "call", key |-> "", keykind |-> "none"
 
 (* ---- declarations ---- *)
 Alias(name, t)                 == [k |-> "alias", name |-> name, type |-> t]
-Interface(name, extends, ms)   == [k |-> "interface", name |-> name, extends |-> extends, members |-> ms]
+Interface(name, extends, ms)   == [k |-> "interface", name |-> name, extends |-> extends, extendsT |-> <<>>, members |-> ms]
+InterfaceX(name, extT, ms)     == [k |-> "interface", name |-> name, extends |-> <<>>, extendsT |-> extT, members |-> ms]   \* extends type references with arguments: `extends Omit<B, 'x'>`
+
+EnumDecl(name, kinds)          == [k |-> "enum", name |-> name, kinds |-> kinds]       \* kinds: per member "str" (= 'lit') or "num" (= 1 / no initialiser)
+ImportT(name)                  == [k |-> "import", name |-> name]                      \* import type { name } from './types'
 
 (* env: sequence of declarations (an interface may be declared several times: merging) *)
 AliasOf(env, n)      == LET idx == {i \in 1..Len(env) : env[i].k = "alias" /\ env[i].name = n} IN
                         IF idx = {} THEN [k |-> "none"] ELSE env[CHOOSE i \in idx : TRUE]
 InterfacesOf(env, n) == SelectSeq(env, LAMBDA d : d.k = "interface" /\ d.name = n)
+EnumOf(env, n)       == LET idx == {i \in 1..Len(env) : env[i].k = "enum" /\ env[i].name = n} IN
+                        IF idx = {} THEN [k |-> "none"] ELSE env[CHOOSE i \in idx : TRUE]
+Imported(env, n)     == \E i \in 1..Len(env) : env[i].k = "import" /\ env[i].name = n
 Declared(env, n)     == AliasOf(env, n).k # "none" \/ InterfacesOf(env, n) # <<>>
 
 RECURSIVE ConcatAll(_)
@@ -81,7 +88,8 @@ MembersOf(t, env) ==
          ELSE IF InterfacesOf(env, t.name) # <<>> THEN
               LET is == InterfacesOf(env, t.name) IN
               ConcatAll([i \in 1..Len(is) |-> is[i].members
-                            \o ConcatAll([j \in 1..Len(is[i].extends) |-> MembersOf(Ref(is[i].extends[j], <<>>), env)])])
+                            \o ConcatAll([j \in 1..Len(is[i].extends) |-> MembersOf(Ref(is[i].extends[j], <<>>), env)])
+                            \o ConcatAll([j \in 1..Len(is[i].extendsT) |-> MembersOf(is[i].extendsT[j], env)])])
          ELSE CASE t.name = "Partial"  -> WithOptional(MembersOf(t.args[1], env), TRUE)
                 [] t.name = "Required" -> WithOptional(MembersOf(t.args[1], env), FALSE)
                 [] t.name = "Pick" -> SelectSeq(MembersOf(t.args[1], env), LAMBDA m : m.k # "call" /\ m.key \in KeysOf(t.args[2], env))
@@ -127,12 +135,17 @@ CtorsD(t, env, D) ==         \* sequence of constructor names; "null" = the null
          IF AliasOf(env, t.name).k # "none" THEN CtorsD(AliasOf(env, t.name).type, env, D)
          ELSE IF InterfacesOf(env, t.name) # <<>> THEN
               LET ms == MembersOf(t, env) IN IF ms = <<>> THEN <<"Object">> ELSE ObjectLikeCtors(ms)
+         ELSE IF EnumOf(env, t.name).k # "none" THEN      \* the values of an enum are the strings / numbers of its members
+              LET ks == EnumOf(env, t.name).kinds IN
+              IF ks = <<>> THEN <<"Number">> ELSE Dedup([i \in 1..Len(ks) |-> IF ks[i] = "str" THEN "String" ELSE "Number"])
          ELSE CASE t.name \in BuiltinClasses -> <<t.name>>
                 [] t.name \in {"Partial", "Required", "Readonly", "Record", "Pick", "Omit", "InstanceType"} -> <<"Object">>
                 [] t.name \in {"Uppercase", "Lowercase", "Capitalize", "Uncapitalize"} -> <<"String">>
                 [] t.name \in {"Parameters", "ConstructorParameters"} -> <<"Array">>
                 [] t.name = "NonNullable" -> SelectSeq(CtorsD(t.args[1], env, D), LAMBDA c : c # "null")
-                [] OTHER -> <<"Object">>
+                \* a type imported from another module, a global or utility type outside the table: nothing is known about
+                \* its values - only "no check" accepts them all
+                [] OTHER -> <<"ANY">>
 Ctors(t, env) == CtorsD(t, env, {})
 
 (* ---- the filtering utilities Extract<T, U> / Exclude<T, U> (at the top of a prop type) ---- *)
